@@ -238,7 +238,11 @@ def run(ctx):
             a = affine(f["body"], pn[0]) if pn else None
             affs.append(a)
         if None in affs:
-            ctx.inst("C17.R4", key, None, "conversion body is not an affine expression over literals", r["loc"])
+            # not affine: a clamping / rounding step makes the map many-to-one, and then no inverse gives the value back
+            lossy = sorted({x["name"] for p in (to_p, from_p) for x in H.walk(core.hir[p]["body"]) if H.kind(x) == "MethodCall" and x["name"] in
+                            ("max", "min", "abs", "clamp", "round", "floor", "ceil", "trunc", "signum", "rem_euclid", "fract", "round_ties_even")
+                            and (x.get("recv_ty") or H.strip(x["recv"]).get("ty") or "").lstrip("&") in ("f64", "f32")})
+            ctx.inst("C17.R4", key, False if lossy else None, "conversion body is not an affine expression over literals%s" % ("" if not lossy else ": it applies %s, which maps different temperatures to the same number - identity, round trip and transitivity fail for those" % lossy), r["loc"])
             continue
         (a1, b1), (a2, b2) = affs
         comp = (a2 * a1, a2 * b1 + b2)
